@@ -9,8 +9,10 @@ Ties (all on the SAME archives of every generated program, built once by harness
   selector   real dce.Selector (hook compiler.VerifDceSelection) vs Lean `select` on the (alive, link, filters, deps)
              table parsed from Dce().String() of every declaration of every linked package   [internal tie]
   emission   the linker output contains, package by package, exactly WritePkgCode(hook selection)  [internal tie]
-  closure    static scan of the selected declarations' JS for package-level variables / imported members that only
-             eliminated declarations declare                                                      [internal tie]
+  closure    static scan of the selected declarations' JS (a) for package-level variables / imported members that only
+             eliminated declarations declare, (b) for unexported methods reached BY NAME ($ifaceMethodExpr("m"),
+             $methodVal(x,"m"), $methodExpr(T,"m"), recv.m( ): the declaration must record a dependency on a method
+             filter pkg.m(...) whenever the package declares such a method                        [internal tie]
   behaviour  the property itself: linked normally vs every declaration forced alive -> same trace and ending under
              Node, no ReferenceError/TypeError, and both equal the native Go build.
 """
@@ -24,9 +26,11 @@ from . import progs
 
 THEOREMS = ["select_lfp", "select_sound", "select_complete", "live_is_least_closed", "select_order_independent", "select_perm",
             "select_monotone_alive", "select_closed", "select_closed_two", "select_exact", "select_roots", "select_subset",
-            "select_all_alive", "select_subset_all_alive", "select_renaming"]
+            "select_all_alive", "select_subset_all_alive", "select_renaming",
+            "filter_names_injective", "object_filter_injective", "method_filter_injective", "object_filter_ne_method_filter",
+            "method_filter_eq_iff"]
 
-NATIVE_FRACTION = 0.4    # share of generated programs that are also built and run natively (about 1 s CPU each)
+NATIVE_FRACTION = 0.12   # share of generated programs that are also built and run natively (several CPU-seconds each)
 ORDERS = ["fwd", "rev", "weave", "rot=7", "rot=61"]
 PICKS = ["lifo", "fifo", "mid", "alt"]
 
@@ -49,6 +53,7 @@ class Gen:
         self.lib_used = False
         self.linkname = False
         self.features = []
+        self.cells = []       # sole-reference cells (kind, exported, ptr)
 
     def p(self):
         self.n += 1
@@ -535,6 +540,149 @@ def f_generic_signature(g):
         g.main.append(o)
 
 
+# --------------------------------------------------------------------------------------
+# Sole-reference cells: ONE way of reaching a method is the ONLY mention of its name+signature in the whole program
+# (the method name is unique to the cell).  Matrix: reference kind x exported/unexported x value/pointer receiver.
+# --------------------------------------------------------------------------------------
+
+SOLE_KINDS = ["call-iface", "mval-iface", "mexpr-iface", "mexpr-anon-iface", "call-concrete", "mval-concrete", "mexpr-concrete",
+              "embed-call", "embed-iface", "embed-mexpr", "generic-constraint", "assert-anon", "defer-concrete", "defer-iface",
+              "go-concrete", "go-iface", "gen-call-iface", "gen-mexpr-iface", "gen-mexpr-concrete"]
+
+
+def sole_cell(g, kind, exported, ptr):
+    rng, P = g.rng, g.p()
+    M = ("M" if exported else "m") + P
+    T, U, I, O, C = P + "T", P + "U", P + "I", P + "O", P + "C"
+    tag = "\"%s %s %s %s\"" % (P, kind, "exp" if exported else "unexp", "ptr" if ptr else "val")
+    star, amp = ("*", "&") if ptr else ("", "")
+    generic = kind.startswith("gen-")
+    go = kind.startswith("go-")
+    D = g.decls
+    D.append("var %s int\n" % C)
+    if generic:
+        D.append("type %s[X any] struct {\n\tn int\n\tx X\n}\n" % T)
+        D.append("func (t %s%s[X]) %s(x X) X {\n\t%s += t.n\n\treturn x\n}\n" % (star, T, M, C))
+        D.append("func (t %s%s[X]) z%s() int { return t.n * 1000 }\n" % (star, T, P))
+        D.append("type %s interface{ %s(x string) string }\n" % (I, M))
+        val = "%s%s[string]{3, \"a\"}" % (amp, T)
+        if kind == "gen-call-iface":
+            g.main.append("var %si %s = %s\n\tprintln(%s, %si.%s(\"q\"), %s)" % (P, I, val, tag, P, M, C))
+        elif kind == "gen-mexpr-iface":
+            g.main.append("%sf := %s.%s\n\tprintln(%s, %sf(%s, \"q\"), %s)" % (P, I, M, tag, P, val, C))
+        else:
+            recv = "(*%s[string])" % T if ptr else "%s[string]" % T
+            g.main.append("%sf := %s.%s\n\tprintln(%s, %sf(%s, \"q\"), %s)" % (P, recv, M, tag, P, val, C))
+        return
+    sig, ret, body = ("(ch chan int)", "", "ch <- t.n * 2") if go else ("()", " int", "return t.n * 2")
+    for ty in (T, U):
+        D.append("type %s struct{ n int }\n" % ty)
+        D.append("func (t %s%s) %s%s%s {\n\t%s += t.n\n\t%s\n}\n" % (star, ty, M, sig, ret, C, body))
+        D.append("func (t %s%s) z%s() int { return t.n * 1000 }\n" % (star, ty, P))
+    vT, vU = "%s%s{3}" % (amp, T), "%s%s{4}" % (amp, U)
+    needs_iface = kind in ("call-iface", "mval-iface", "mexpr-iface", "embed-iface", "defer-iface", "go-iface")
+    if needs_iface:
+        D.append("type %s interface{ %s%s%s }\n" % (I, M, sig, ret))
+    if kind.startswith("embed-"):
+        embptr = rng.random() < 0.5
+        D.append("type %s struct {\n\t%s%s\n\tk int\n}\n" % (O, "*" if embptr else "", T))
+        oval = "%s{%s%s{3}, 1}" % (O, "&" if embptr else "", T)
+    m = g.main
+    if kind == "call-iface":
+        m.append("for _, v := range []%s{%s, %s} { println(%s, v.%s()) }" % (I, vT, vU, tag, M))
+    elif kind == "mval-iface":
+        m.append("for _, v := range []%s{%s, %s} {\n\t\tf := v.%s\n\t\tprintln(%s, f())\n\t}" % (I, vT, vU, M, tag))
+    elif kind == "mexpr-iface":
+        m.append("%sf := %s.%s\n\tprintln(%s, %sf(%s), %sf(%s))" % (P, I, M, tag, P, vT, P, vU))
+    elif kind == "mexpr-anon-iface":
+        m.append("%sf := interface{ %s() int }.%s\n\tprintln(%s, %sf(%s), %sf(%s))" % (P, M, M, tag, P, vT, P, vU))
+    elif kind == "call-concrete":
+        m.append("%sx, %sy := %s{3}, %s{4}\n\tprintln(%s, %sx.%s(), %sy.%s())" % (P, P, T, U, tag, P, M, P, M))
+    elif kind == "mval-concrete":
+        m.append("%sx, %sy := %s{3}, %s\n\t%sf, %sg := %sx.%s, %sy.%s\n\tprintln(%s, %sf(), %sg())" % (P, P, T, vU, P, P, P, M, P, M, tag, P, P))
+    elif kind == "mexpr-concrete":
+        if ptr or rng.random() < 0.4:
+            m.append("%sf, %sg := (*%s).%s, (*%s).%s\n\tprintln(%s, %sf(&%s{3}), %sg(&%s{4}))" % (P, P, T, M, U, M, tag, P, T, P, U))
+        else:
+            m.append("%sf, %sg := %s.%s, %s.%s\n\tprintln(%s, %sf(%s{3}), %sg(%s{4}))" % (P, P, T, M, U, M, tag, P, T, P, U))
+    elif kind == "embed-call":
+        m.append("%so := %s\n\tprintln(%s, %so.%s())" % (P, oval, tag, P, M))
+    elif kind == "embed-iface":
+        m.append("var %si %s = &%s\n\tprintln(%s, %si.%s())" % (P, I, oval, tag, P, M))
+    elif kind == "embed-mexpr":
+        m.append("%sf := (*%s).%s\n\tprintln(%s, %sf(&%s))" % (P, O, M, tag, P, oval))
+    elif kind == "generic-constraint":
+        D.append("func %sg[X interface{ %s() int }](x X) int { return x.%s() + 1 }\n" % (P, M, M))
+        m.append("println(%s, %sg(%s), %sg(%s))" % (tag, P, vT, P, vU))
+    elif kind == "assert-anon":
+        m.append("for _, v := range []interface{}{%s, %s, 5} {\n\t\tif a, ok := v.(interface{ %s() int }); ok {\n\t\t\tprintln(%s, a.%s())\n\t\t}\n\t}" % (vT, vU, M, tag, M))
+    elif kind == "defer-concrete":
+        D.append("func %sd() {\n\tx := %s{3}\n\tdefer x.%s()\n}\n" % (P, T, M))
+        D.append("func %se() {\n\ty := %s\n\tdefer y.%s()\n}\n" % (P, vU, M))
+        m.append("%sd()\n\t%se()" % (P, P))
+    elif kind == "defer-iface":
+        D.append("func %sd(i %s) { defer i.%s() }\n" % (P, I, M))
+        m.append("%sd(%s)\n\t%sd(%s)" % (P, vT, P, vU))
+    elif kind == "go-concrete":
+        m.append("%sch := make(chan int)\n\t%sx := %s{3}\n\tgo %sx.%s(%sch)\n\tprintln(%s, <-%sch)" % (P, P, T, P, M, P, tag, P))
+        m.append("go %s.%s(%sch)\n\tprintln(%s, <-%sch)" % (vU.replace("&", "(&") + (")" if ptr else ""), M, P, tag, P))
+    elif kind == "go-iface":
+        m.append("%sch := make(chan int)\n\tfor _, v := range []%s{%s, %s} {\n\t\tgo v.%s(%sch)\n\t\tprintln(%s, <-%sch)\n\t}" % (P, I, vT, vU, M, P, tag, P))
+    m.append("println(%s, \"c\", %s)" % (tag, C))
+
+
+def f_sole(g):
+    rng = g.rng
+    for _ in range(rng.randrange(1, 3)):
+        kind, exported, ptr = rng.choice(SOLE_KINDS), rng.random() < 0.4, rng.random() < 0.5
+        sole_cell(g, kind, exported, ptr)
+        g.cells.append((kind, exported, ptr))
+
+
+def matrix_programs(rng, seed):
+    """every cell of the matrix, a few cells per program (cells never share a method name)"""
+    cells = [(k, e, p) for k in SOLE_KINDS for e in (False, True) for p in (False, True)]
+    rng.shuffle(cells)
+    out = []
+    for a in range(0, len(cells), 6):
+        mod = "gvm%dx%d" % (seed, a // 6)
+        g = Gen(rng, mod)
+        for k, e, p in cells[a:a + 6]:
+            sole_cell(g, k, e, p)
+            g.cells.append((k, e, p))
+            g.features.append("sole-reference")
+        out.append((mod, g.build(), g.features, g.cells))
+    return out
+
+
+# which (reference kind x exportedness x receiver) cells the 20 composite generators reach (audit, by reading them);
+# "sole" = the reference is the only mention of the method name+signature in the program.  Everything else in the
+# matrix is covered by the sole-reference cells only.
+GENERATOR_AUDIT = {
+    "iface-exported": "call-iface exp val|ptr (sole)",
+    "iface-unexported": "call-iface unexp val (sole; same name on a live type that never meets the interface, other signatures dead)",
+    "anon-iface-assert": "assert-anon exp|unexp val|ptr (sole unless the optional direct interface call is drawn)",
+    "method-value-expr": "mval-concrete, mexpr-concrete exp|unexp val|ptr (a method may be reached by both forms: not always sole)",
+    "embedding": "embed-iface unexp val + exp ptr, embed-call via interface embedded in struct (not sole: id() reached twice)",
+    "generic-func": "no methods",
+    "generic-type": "gen-call-iface unexp val (values), exp val|ptr (Len, Add) (sole)",
+    "generic-constraint-method": "generic-constraint exp|unexp val|ptr (not sole when Hold.run is drawn)",
+    "generic-signature": "generic-constraint unexp val|ptr with type-parameter signatures, gen-call-iface unexp val (sole per signature)",
+    "nested-type": "call-iface unexp val on a named func type",
+    "side-effect-var": "call-concrete / call-iface unexp val inside initialisers",
+    "linkname": "go:linkname to unexported functions and methods (val and ptr receivers)",
+    "cross-package": "call-iface exp+unexp val|ptr across packages",
+    "named-nonstruct": "call-iface exp val on slice/map/func/int/chan types; call-concrete unexp val|ptr",
+    "struct-fields": "call-concrete exp val",
+    "init-registry": "call-iface unexp val from init()",
+    "error-panic": "call-iface exp ptr through the predeclared error interface",
+    "defer-go": "defer-concrete unexp ptr, go-concrete unexp val (sole)",
+    "func-table": "no methods",
+    "signature-spellings": "call-iface unexp val with composite signatures; gen-call-iface unexp val",
+    "sole-reference": "all 19 kinds x exp|unexp x val|ptr, each the sole reference (matrix programs enumerate every cell in every run)",
+}
+
+
 FEATURES = [
     ("iface-exported", f_iface_exported), ("iface-unexported", f_iface_unexported), ("anon-iface-assert", f_anon_iface),
     ("method-value-expr", f_method_value), ("embedding", f_embedding), ("generic-func", f_generic_func),
@@ -542,7 +690,7 @@ FEATURES = [
     ("side-effect-var", f_side_effect_vars), ("linkname", f_linkname), ("cross-package", f_crosspkg),
     ("named-nonstruct", f_named_nonstruct), ("struct-fields", f_struct_fields), ("init-registry", f_init_registry),
     ("error-panic", f_error_panic), ("defer-go", f_defer_go), ("func-table", f_func_tables), ("signature-spellings", f_signatures),
-    ("generic-signature", f_generic_signature),
+    ("generic-signature", f_generic_signature), ("sole-reference", f_sole),
 ]
 
 
@@ -555,7 +703,7 @@ def gen_program(rng, mod, force=None):
     for name, fn in chosen:
         fn(g)
         g.features.append(name)
-    return g.build(), g.features
+    return g.build(), g.features, g.cells
 
 
 # --------------------------------------------------------------------------------------
@@ -618,6 +766,39 @@ func main() {
 	println(call(Foo{}), call(3))
 }
 """,
+    "seeded-iface-method-expr-sole-reference": """package main
+
+// shape has only an unexported method, so it can be implemented solely by
+// types of this package.
+type shape interface {
+	area() int
+}
+
+type square struct{ side int }
+
+func (s square) area() int { return s.side * s.side }
+
+type rect struct{ w, h int }
+
+func (r *rect) area() int { return r.w * r.h }
+
+// total receives the measuring function as a plain func value; the only place
+// the area method is ever mentioned is the interface method expression in main.
+func total(measure func(shape) int, shapes ...shape) int {
+	sum := 0
+	for _, s := range shapes {
+		sum += measure(s)
+	}
+	return sum
+}
+
+func main() {
+	measure := shape.area // method expression on an interface type
+	println("square:", measure(square{side: 3}))
+	println("rect:", measure(&rect{w: 2, h: 5}))
+	println("total:", total(measure, square{side: 2}, &rect{w: 1, h: 7}, square{side: 1}))
+}
+""",
     "readme-side-effects": """package main
 
 var count = 0
@@ -651,8 +832,8 @@ def run_batch(chk, jobs, meta, tier):
     lines = [json.dumps(j) for j in jobs]
     gopath = C.scratch("gvc05")
     try:
-        p = C.run_gvh(["run", "-j", "12"], lines, name="gvh_c05", timeout=7200,
-                      extra_env={"GOPATH": gopath, "GO111MODULE": "off", "GOFLAGS": ""})
+        p = C.run_gvh(["run", "-j", "8"], lines, name="gvh_c05", timeout=7200,
+                      extra_env={"GOPATH": gopath, "GO111MODULE": "off", "GOFLAGS": "", "GOMAXPROCS": "8"})
     finally:
         shutil.rmtree(gopath, ignore_errors=True)
     if p.returncode != 0:
@@ -694,7 +875,7 @@ def run_batch(chk, jobs, meta, tier):
         per.setdefault(i, []).append((what, a))
     failures = 0
     for i, r in enumerate(results):
-        files, feats = meta[i]
+        files, feats, cells = meta[i]
         fkey = "+".join(sorted(set(feats)))
         op = "program %s features=%s" % (r["id"], ",".join(feats))
         native = r["runs"].get("native")
@@ -733,6 +914,12 @@ def run_batch(chk, jobs, meta, tier):
         if r.get("emission_bad"):
             chk.add_tie_break("emission", op, "packages whose emitted code is not WritePkgCode(selection): %s" % r["emission_bad"], "equal")
         chk.extra["closure_refs_checked"] = chk.extra.get("closure_refs_checked", 0) + r.get("closure_refs", 0)
+        mr = chk.extra.setdefault("method_name_refs_checked", {})
+        for k, v in (r.get("method_refs") or {}).items():
+            mr[k] = mr.get(k, 0) + v
+        mat = chk.extra.setdefault("sole_reference_matrix", {k: {"unexp-val": 0, "unexp-ptr": 0, "exp-val": 0, "exp-ptr": 0} for k in SOLE_KINDS})
+        for kind, exported, ptr in cells:
+            mat[kind]["%s-%s" % ("exp" if exported else "unexp", "ptr" if ptr else "val")] += 1
         closure_bad = r.get("closure_bad") or []
         # --- tie: behaviour (the property) --------------------------------------------------------------
         op_ = progs.observe_js(r["runs"]["plain"])
@@ -749,6 +936,7 @@ def run_batch(chk, jobs, meta, tier):
             bad = ("js-vs-native", op_, on)
         if bad:
             failures += 1
+            chk.extra.setdefault("_failed_cells", set()).update(cells)
             kind, x, y = bad
             sig = "C05 %s features=%s ending=%s" % (kind, fkey, classify(x))
             chk.add_mismatch("behaviour", json.dumps({"program": files, "mod": jobs[i].get("mod", ""), "features": feats, "kind": kind,
@@ -763,8 +951,8 @@ def run_batch(chk, jobs, meta, tier):
 
 def run(tier, seed):
     chk = C.Check("C05", tier, seed)
-    nprog = 100 if tier == "quick" else 1200
-    chk.rule = ("programs = random compositions (2-6 features each, seeded) of 20 feature generators that reach code only "
+    nprog = 70 if tier == "quick" else 1150
+    chk.rule = ("programs = random compositions (2-6 features each, seeded) of 21 feature generators that reach code only "
                 "through interfaces (exported/unexported/same-named methods), anonymous interfaces and assertions, method "
                 "values/expressions, embedding, generic functions/types/constraint methods, types nested in functions and "
                 "methods, side-effecting package variable initialisers, go:linkname (function and method forms), a second "
@@ -772,13 +960,20 @@ def run(tier, seed):
                 "method calls, function tables and unexported methods with composite signature spellings (also on generic "
                 "receivers); each feature also declares unreachable code. %d generated programs + %d "
                 "corpus programs; every program is built once and its archives (all packages incl. runtime) feed all four ties; "
-                "a program is non-trivial when DCE eliminates at least one declaration of the user packages"
+                "a program is non-trivial when DCE eliminates at least one declaration of the user packages. In addition the "
+                "SOLE-REFERENCE MATRIX: 19 ways of reaching a method (call / method value / method expression on interface, "
+                "anonymous interface and concrete types, promotion through embedding, generic constraint, assertion, defer, go, "
+                "generic receivers) x exported/unexported x value/pointer receiver; in each cell that reference is the ONLY mention "
+                "of the method name in the program; all 76 cells are generated in every run (matrix programs, 6 cells each) and "
+                "again at random inside compositions; failing matrix programs are shrunk to single-cell programs"
                 % (nprog, len(CORPUS)))
     chk.trusted = ["Lean 4.33 kernel; axioms per theorem listed (subset of propext, Classical.choice, Quot.sound)",
                    "hand-written model GV.Model.Dce of selector.go, tied on every run to the real dce.Selector via "
                    "/repo/compiler/verif_hooks_c05.go on complete declaration tables of real programs",
                    "parser of (*dce.Info).String() in harness/internal/c05 (bracket-aware split, checked against sortedness)",
-                   "Node 20 and the native Go toolchain as execution oracles"]
+                   "Node 20 and the native Go toolchain as execution oracles",
+                   "GV.Model.DceNames (filter-name grammar at token level) is a reading of filters.go; it is NOT tied to the code by a "
+                   "run (atoms indivisible; struct/interface/union types not modelled)"]
     chk.assumptions = ["completeness of dependency RECORDING in the translator (DeclareDCEDep call sites) and of the filter "
                        "naming (filters.go) is NOT proved: it is what the behaviour tie and the artefact closure scan test",
                        "names are interned before they reach the Lean driver (justified at model level by theorem select_renaming: "
@@ -791,12 +986,19 @@ def run(tier, seed):
     jobs, meta = [], []
     for name, src in sorted(CORPUS.items()):
         jobs.append({"id": "corpus-" + name, "files": {"main.go": src}, "native": True})
-        meta.append(({"main.go": src}, ["corpus:" + name]))
+        meta.append(({"main.go": src}, ["corpus:" + name], []))
+    # the sole-reference matrix: every (reference kind x exportedness x receiver kind) cell, in every run
+    nmatrix = 0
+    for rep in range(1 if tier == "quick" else 4):
+        for mod, files, feats, cells in matrix_programs(chk.rng, seed * 10 + rep):
+            jobs.append({"id": "m%d-%s" % (seed, mod), "mod": mod, "files": files, "native": chk.rng.random() < 0.35, "timeout": 60})
+            meta.append((files, feats, cells))
+            nmatrix += 1
     for i in range(nprog):
         mod = "gvp%dx%d" % (seed, i)
-        files, feats = gen_program(chk.rng, mod, force=FEATURES[i % len(FEATURES)][0] if i < 3 * len(FEATURES) else None)
+        files, feats, cells = gen_program(chk.rng, mod, force=FEATURES[i % len(FEATURES)][0] if i < 2 * len(FEATURES) else None)
         jobs.append({"id": "g%d-%d" % (seed, i), "mod": mod, "files": files, "native": chk.rng.random() < NATIVE_FRACTION, "timeout": 60})
-        meta.append((files, feats))
+        meta.append((files, feats, cells))
     failures = 0
     step = 30 if tier == "quick" else 120
     budget = 110 if tier == "quick" else 1080      # seconds for the main program phase (the machine may be loaded)
@@ -805,8 +1007,27 @@ def run(tier, seed):
     for a in range(0, len(jobs), step):
         failures += run_batch(chk, jobs[a:a + step], meta[a:a + step], tier)
         done = min(len(jobs), a + step)
-        if time.time() - t0 > budget and done >= len(CORPUS) + 2 * len(FEATURES):
+        if time.time() - t0 > budget and done >= len(CORPUS) + nmatrix + 2 * len(FEATURES):
             break
+    failed_cells = sorted(chk.extra.pop("_failed_cells", set()))
+    if failed_cells:
+        # shrink: every sole-reference cell of a failing program again, alone in its own program
+        jobs1, meta1 = [], []
+        for n, (k, e, p_) in enumerate(failed_cells[:80]):
+            mod = "gvc%dx%d" % (seed, n)
+            g = Gen(chk.rng, mod)
+            sole_cell(g, k, e, p_)
+            g.features.append("sole:%s:%s:%s" % (k, "exp" if e else "unexp", "ptr" if p_ else "val"))
+            jobs1.append({"id": "c%d-%d" % (seed, n), "mod": mod, "files": g.build(), "native": False, "timeout": 60})
+            meta1.append((jobs1[-1]["files"], g.features, []))
+        before = len(chk.mismatches)
+        run_batch(chk, jobs1, meta1, tier)
+        chk.extra.pop("_failed_cells", None)
+        chk.extra["failing_sole_reference_cells"] = sorted(set(
+            json.loads(m["op"])["features"][0] for m in chk.mismatches[before:]))
+        # smallest failing inputs first in the replay
+        chk.mismatches = chk.mismatches[before:] + chk.mismatches[:before]
+    chk.extra["generator_audit"] = GENERATOR_AUDIT
     chk.extra["programs"] = done
     chk.extra["programs_planned"] = len(jobs)
     chk.extra["stopped_on_time_budget"] = done < len(jobs)
@@ -825,9 +1046,9 @@ def run(tier, seed):
         jobs2, meta2 = [], []
         for i in range(extra_n):
             mod = "gvs%dx%d" % (seed, i)
-            files, feats = gen_program(chk.rng, mod, force=hot[i % len(hot)])
+            files, feats, cells = gen_program(chk.rng, mod, force=hot[i % len(hot)])
             jobs2.append({"id": "s%d-%d" % (seed, i), "mod": mod, "files": files, "native": chk.rng.random() < NATIVE_FRACTION, "timeout": 60})
-            meta2.append((files, feats))
+            meta2.append((files, feats, cells))
         t1 = time.time()
         ran = 0
         for a in range(0, len(jobs2), step):
@@ -836,6 +1057,7 @@ def run(tier, seed):
             if failures or time.time() - t1 > (240 if tier == "quick" else 900):
                 break
         chk.extra["search_programs"] = ran
+    chk.extra.pop("_failed_cells", None)
     return chk.finish()
 
 
